@@ -234,6 +234,54 @@ def p_inner(x):
     return got
 
 
+class OtherContext:
+    """A second contextvars.Context (what another thread or asyncio task has): blocks entered there must not be
+    visible here and vice versa.  Deterministic stand-in for a concurrently running actor: it only ever runs at
+    points the plan (or a user callback) chooses."""
+
+    def __init__(self):
+        import contextvars
+        self.ctx = contextvars.copy_context()
+        self.cm = None
+        self.kind = None
+
+    def run(self, fn, *a):
+        return self.ctx.run(fn, *a)
+
+    def enter(self, kind="sym"):
+        from entity_query_language import symbolic_mode, rule_mode
+        if self.cm is None:
+            self.cm = symbolic_mode() if kind == "sym" else rule_mode()
+            self.kind = kind
+            self.ctx.run(self.cm.__enter__)
+
+    def leave(self):
+        if self.cm is not None:
+            cm, self.cm, self.kind = self.cm, None, None
+            self.ctx.run(cm.__exit__, None, None, None)
+
+    def mode_seen_there(self):
+        from entity_query_language.symbolic import _symbolic_mode
+        return self.ctx.run(_symbolic_mode.get)
+
+
+OTHER = None      # set per run by the executor
+
+
+@predicate
+def p_ctx(x):
+    """While the evaluation runs, 'another task' (a second Context) enters a symbolic block on one call and leaves it
+    on the next.  That must not be visible to this evaluation."""
+    cb("pred", "p_ctx", lab(x))
+    o = OTHER
+    if o is not None:
+        if o.cm is None:
+            o.enter("sym")
+        else:
+            o.leave()
+    return x.a >= 1
+
+
 # ---- class predicates
 
 @dataclass(eq=False, repr=False)
@@ -259,7 +307,7 @@ class Linked(Predicate):
 CLASSES = {"Item": Item, "Gadget": Gadget, "Widget": Widget, "Twin": Twin, "View": View, "Pair": Pair, "Solo": Solo,
            "Tagged": Tagged}
 FPREDS = {"p_odd": (p_odd, 1), "p_ge": (p_ge, 2), "p_link": (p_link, 2), "p_has": (p_has, 2),
-          "p_calls": (p_calls, 1), "p_makes": (p_makes, 1), "p_inner": (p_inner, 1)}
+          "p_calls": (p_calls, 1), "p_makes": (p_makes, 1), "p_inner": (p_inner, 1), "p_ctx": (p_ctx, 1)}
 CPREDS = {"IsBig": (IsBig, 1), "IsBigK": (IsBig, 2), "Linked": (Linked, 2)}
 
 
